@@ -62,8 +62,13 @@ BOUNDS = {
             ("por", 3, [("full3", 5)], [None, "EOL"], MUTS_Q),
         ],
         "split_max": 3,
-        "fault_cycles": (1, 2),
-        "fault_burnsteps": (0, 1, 2),
+        # Part B: (nCycles, burnSteps) shapes of the fault-free family / of the base fault enumeration /
+        # the shape on which every write-path deviation also gets its fault enumeration
+        "shapes_free": [(1, 0), (1, 1), (1, 2), (2, 1), (3, 1)],
+        "shapes_free_base": [(2, 2)],  # only the members without deviation (keeps quick within budget)
+        "shapes_enum": [(1, 0), (1, 1), (1, 2), (2, 1)],
+        "enum_all_on": [],
+        "enum_deviations_on": (2, 1),
     },
     "thorough": {
         "searches": [
@@ -72,8 +77,11 @@ BOUNDS = {
             ("por", 4, [("full3", 3)], [None, "EOL", "x"], PRIMS),
         ],
         "split_max": 4,
-        "fault_cycles": (1, 2, 3),
-        "fault_burnsteps": (0, 1, 2, 3),
+        "shapes_free": [(1, 0), (1, 1), (1, 2), (1, 3), (2, 1), (2, 2), (2, 3), (3, 1), (3, 2), (3, 3)],
+        "shapes_free_base": [],
+        "shapes_enum": [(1, 0), (1, 1), (1, 2), (1, 3), (2, 1), (2, 2), (2, 3), (3, 1), (3, 2), (3, 3)],
+        "enum_all_on": [(1, 0), (1, 1), (1, 2), (2, 1), (2, 2), (3, 1)],  # every member of the family
+        "enum_deviations_on": (2, 1),
     },
 }
 # a refused write is a legitimate outcome only for an existing name; these are the classes the
@@ -929,14 +937,55 @@ def _rec_classes():
     class RecB(Rec):
         name = "recB"
 
+        def getTightCouplingValue(self):
+            return float(self.r.core.p.keff)  # changed at every point: a coupler on it never converges
+
     _REC["A"], _REC["B"] = RecA, RecB
     return RecA, RecB
 
 
-def ref_schedule(nC, bs, tight):
+DEFAULT_MAX_ITERS = 4  # default of tightCouplingMaxNumIters
+
+
+def norm_cfg(case):
+    """Configuration of one operator run with its defaults (older replay files lack the newer keys)."""
+    return {
+        "nCycles": int(case["nCycles"]),
+        "burnSteps": int(case["burnSteps"]),
+        "tight": bool(case["tight"]),
+        "skip": [int(x) for x in case.get("skip") or []],  # cyclesSkipTightCouplingInteraction
+        "maxIters": case.get("maxIters"),  # tightCouplingMaxNumIters (None: default)
+        "coupler": bool(case.get("coupler")),  # recB carries a real TightCoupler that never converges
+        "sync": bool(case.get("sync")),  # syncDbAfterWrite
+    }
+
+
+def cfg_text(c):
+    t = "nCycles=%d burnSteps=%d tightCoupling=%s" % (c["nCycles"], c["burnSteps"], c["tight"])
+    if c["skip"]:
+        t += " cyclesSkipTightCouplingInteraction=%s" % c["skip"]
+    if c["maxIters"] is not None:
+        t += " tightCouplingMaxNumIters=%d" % c["maxIters"]
+    if c["coupler"]:
+        t += " (one interface with a never-converging coupler)"
+    if c["sync"]:
+        t += " syncDbAfterWrite=True"
+    return t
+
+
+def ref_schedule(cfg):
     """Independent for-loop statement of a standard run: the recorder points in order, and after
     which point index each database write completes. Returns (points, writes) with
-    writes = [(index of the last recorder point before the write, (c, n, label))]."""
+    writes = [(index of the last recorder point before the write, (c, n, label))].
+
+    Every node of every cycle is written exactly once: by the database's own EveryNode hook without
+    tight coupling; with it, by the operator after the coupled iterations of the node - however many
+    there are (none in a cycle listed in cyclesSkipTightCouplingInteraction or with an iteration cap
+    of 0; one when nothing has a coupler, since then everything counts as converged; the cap when a
+    coupler never converges)."""
+    cfg = norm_cfg(cfg)
+    nC, bs, tight = cfg["nCycles"], cfg["burnSteps"], cfg["tight"]
+    cap = DEFAULT_MAX_ITERS if cfg["maxIters"] is None else cfg["maxIters"]
     pts, writes = [], []
 
     def hook(name, c, n, *extra):
@@ -955,11 +1004,43 @@ def ref_schedule(nC, bs, tight):
         for n in range(bs + 1):
             hook("EveryNode", c, n)
             if tight:
-                hook("Coupled", c, n, 0)
+                iters = 0 if c in cfg["skip"] else (cap if cfg["coupler"] else min(1, cap))
+                for it in range(iters):
+                    hook("Coupled", c, n, it)
                 writes.append((len(pts) - 1, (c, n, "")))
         hook("EOC", c, bs)
     hook("EOL", nC - 1, bs)
     return pts, writes
+
+
+def cfg_settings(cfg):
+    cfg = norm_cfg(cfg)
+    over = {}
+    if cfg["skip"]:
+        over["cyclesSkipTightCouplingInteraction"] = list(cfg["skip"])
+    if cfg["maxIters"] is not None:
+        over["tightCouplingMaxNumIters"] = int(cfg["maxIters"])
+    if cfg["sync"]:
+        over["syncDbAfterWrite"] = True
+    return over
+
+
+def _standard_stack(o, r, cs, cfg):
+    """[recorder, real DatabaseInterface, recorder] on a bare operator."""
+    from armi import interfaces
+    from armi.bookkeeping.db.databaseInterface import DatabaseInterface
+
+    RecA, RecB = _rec_classes()
+    o.addInterface(RecA(r, cs))
+    dbi = DatabaseInterface(r, cs)
+    o.addInterface(dbi)
+    b = RecB(r, cs)
+    if norm_cfg(cfg)["coupler"]:
+        b.coupler = interfaces.TightCoupler("keff", 1.0e-12, cs["tightCouplingMaxNumIters"])
+    o.addInterface(b)
+    if tuple(i.name for i in o.getInterfaces()) != STACK:
+        raise RuntimeError("interface stack is %s" % [i.name for i in o.getInterfaces()])
+    return dbi
 
 
 def _mk_operator(nC, bs, tight, seed, **over):
@@ -992,9 +1073,9 @@ def run_fault(case):
     from armi.bookkeeping.db.databaseInterface import DatabaseInterface
     from armi.operators import Operator
 
-    nC, bs, tight, arm = case["nCycles"], case["burnSteps"], bool(case["tight"]), case["arm"]
+    cfg = norm_cfg(case)
+    nC, bs, tight, arm = cfg["nCycles"], cfg["burnSteps"], cfg["tight"], case["arm"]
     _reset_masks()
-    RecA, RecB = _rec_classes()
     d = env.fresh_dir("c06b")
     os.chdir(d)
     fastroot = os.path.join(d, "fast")
@@ -1005,15 +1086,10 @@ def run_fault(case):
     dbi = None
     res = {"viols": [], "points": None, "window": "in", "sig": None, "nsnap": 0}
     try:
-        o, r, cs = _mk_operator(nC, bs, tight, int(case.get("seed", 0)))
+        o, r, cs = _mk_operator(nC, bs, tight, int(case.get("seed", 0)), **cfg_settings(cfg))
         t = _Trace
         t.arm = arm
-        o.addInterface(RecA(r, cs))
-        dbi = DatabaseInterface(r, cs)
-        o.addInterface(dbi)
-        o.addInterface(RecB(r, cs))
-        if tuple(i.name for i in o.getInterfaces()) != STACK:
-            raise RuntimeError("interface stack is %s" % [i.name for i in o.getInterfaces()])
+        dbi = _standard_stack(o, r, cs, cfg)
         raised = None
         try:
             with o:
@@ -1021,8 +1097,8 @@ def run_fault(case):
         except RuntimeError as e:
             raised = e
         final = proj(o.r)
-        pts, writes = ref_schedule(nC, bs, tight)
-        what = "nCycles=%d burnSteps=%d tightCoupling=%s" % (nC, bs, tight)
+        pts, writes = ref_schedule(cfg)
+        what = cfg_text(cfg)
         if arm is None:
             res["points"] = t.log
             if raised is not None:
@@ -1127,10 +1203,10 @@ def run_restart(case):
     from armi import context
     from armi.bookkeeping.db.databaseInterface import DatabaseInterface
 
-    nC, bs, tight = case["nCycles"], case["burnSteps"], bool(case["tight"])
+    cfg = norm_cfg(case)
+    nC, bs, tight = cfg["nCycles"], cfg["burnSteps"], cfg["tight"]
     only = case.get("start")
     _reset_masks()
-    RecA, RecB = _rec_classes()
     d = env.fresh_dir("c06r")
     os.chdir(d)
     fastroot = os.path.join(d, "fast")
@@ -1140,14 +1216,12 @@ def run_restart(case):
     res = {"viols": [], "n": 0, "copied": 0}
     open_dbs = []
     try:
-        o, r, cs = _mk_operator(nC, bs, tight, int(case.get("seed", 0)))
-        o.addInterface(RecA(r, cs))
-        o.addInterface(DatabaseInterface(r, cs))
-        o.addInterface(RecB(r, cs))
+        o, r, cs = _mk_operator(nC, bs, tight, int(case.get("seed", 0)), **cfg_settings(cfg))
+        _standard_stack(o, r, cs, cfg)
         with o:
             o.operate()
         projs = list(_Trace.projs)
-        pts, writes = ref_schedule(nC, bs, tight)
+        pts, writes = ref_schedule(cfg)
         os.rename(cs.caseTitle + ".h5", "prev.h5")
         with h5py.File("prev.h5", "r") as f:
             src = {n: gdigest(f[n]) for n in f if n[0] == "c" and n[1:3].isdigit()}
@@ -1159,7 +1233,7 @@ def run_restart(case):
             if only is not None and [sc, sn] != list(only):
                 continue
             res["n"] += 1
-            what = "nCycles=%d burnSteps=%d tightCoupling=%s, restart at (%d,%d)" % (nC, bs, tight, sc, sn)
+            what = "%s, restart at (%d,%d)" % (cfg_text(cfg), sc, sn)
             vl = []
             try:
                 o2, r2, cs2 = _mk_operator(nC, bs, tight, int(case.get("seed", 0)), reloadDBName="prev.h5", startCycle=sc, startNode=sn, loadStyle="fromDB")
@@ -1205,9 +1279,59 @@ def run_restart(case):
         shutil.rmtree(d, ignore_errors=True)
 
 
-def fault_configs(b):
-    # burnSteps = 0 is only admitted by the cycle settings for a single cycle
-    return [{"part": "B", "nCycles": nC, "burnSteps": bs, "tight": tight} for nC in b["fault_cycles"] for bs in b["fault_burnsteps"] for tight in (False, True) if bs > 0 or nC == 1]
+def _cfg(nC, bs, tight, skip=(), maxIters=None, coupler=False, sync=False):
+    return {"part": "B", "nCycles": nC, "burnSteps": bs, "tight": tight, "skip": list(skip), "maxIters": maxIters, "coupler": coupler, "sync": sync}
+
+
+# how many coupled iterations a node gets: (tightCouplingMaxNumIters, a never-converging coupler present)
+ITER_MODES = [(None, False), (0, False), (1, False), (2, True)]
+
+
+def fault_families(b):
+    """(fault-free family, fault-enumeration family). The family spans every settings dimension that
+    changes WHICH code path writes a node or finalises the file: tightCoupling (database hook vs
+    operator after the coupled iterations) x cyclesSkipTightCouplingInteraction in {[], [0], [1], all}
+    x number of coupled iterations {cap 0, converged at once, cap reached} x syncDbAfterWrite
+    (close/copy/reopen after every write), over nCycles 1-3 and burnSteps from 0."""
+    free, seen = [], set()
+
+    def add(lst, c):
+        k = json.dumps(c, sort_keys=True)
+        if k not in seen:
+            seen.add(k)
+            lst.append(c)
+
+    def members(nC, bs):
+        out = [_cfg(nC, bs, False), _cfg(nC, bs, False, sync=True)]
+        eff = set()
+        for skip in ([], [0], [1], list(range(nC))):
+            e = tuple(sorted(set(skip) & set(range(nC))))
+            if e in eff:
+                continue
+            eff.add(e)
+            for cap, coup in ITER_MODES:
+                out.append(_cfg(nC, bs, True, skip, cap, coup))
+        out.append(_cfg(nC, bs, True, sync=True))
+        return out
+
+    for nC, bs in b["shapes_free"]:
+        for c in members(nC, bs):
+            add(free, c)
+    for nC, bs in b["shapes_free_base"]:
+        for c in (_cfg(nC, bs, False), _cfg(nC, bs, True), _cfg(nC, bs, False, sync=True), _cfg(nC, bs, True, sync=True)):
+            add(free, c)
+    enum, seen = [], set()
+    for nC, bs in b["shapes_enum"]:
+        add(enum, _cfg(nC, bs, False))
+        add(enum, _cfg(nC, bs, True))
+    for nC, bs in b["enum_all_on"]:
+        for c in members(nC, bs):
+            add(enum, c)
+    if b["shapes_enum"]:
+        nC, bs = b["enum_deviations_on"]
+        for c in (_cfg(nC, bs, True, [nC - 1]), _cfg(nC, bs, True, list(range(nC))), _cfg(nC, bs, True, [], 2, True), _cfg(nC, bs, False, sync=True), _cfg(nC, bs, True, sync=True)):
+            add(enum, c)
+    return free, enum
 
 
 # =============================================================================================
@@ -1217,41 +1341,45 @@ def run(ctx):
     b = dict(BOUNDS[ctx.tier])
     parts = os.environ.get("VERIF_C06_PARTS", "ABS")  # development aid only; default: everything
     if "B" not in parts:
-        b["fault_cycles"] = ()
+        b["shapes_free"] = b["shapes_free_base"] = b["shapes_enum"] = b["enum_all_on"] = []
     if "S" not in parts:
         b["split_max"] = 0
     if "A" not in parts:
         b["searches"] = []
     if parts != "ABS":
         ctx.notes.append("PARTIAL RUN: VERIF_C06_PARTS=%s" % parts)
-    # ---- Part B first (its fault-free runs define the points)
-    cfgs = [dict(c, arm=None, seed=ctx.seed) for c in fault_configs(b)]
+    # ---- Part B: fault-free family first (its runs define the points), then the fault enumeration
+    fam_free, fam_enum = fault_families(b)
+    cfgs = [dict(c, arm=None, seed=ctx.seed) for c in fam_free]
     free = core.pmap(MOD, "run_fault", cfgs)
     cases = []
+    sigs = set()
+    enum_keys = {json.dumps(c, sort_keys=True) for c in fam_enum}
     for c, r in zip(cfgs, free):
         ctx.add_violations(r["viols"])
         ctx.count("fault/fault-free runs")
+        ctx.count("fault/fault-free snapshots loaded", r["nsnap"])
         ctx.count("fault/mid-run history queries checked", r.get("nhist", 0))
-        if r["viols"]:
+        sigs.add((cfg_text(norm_cfg(c)), r["sig"]))
+        base = {k: v for k, v in c.items() if k not in ("arm", "seed")}
+        if r["viols"] or json.dumps(base, sort_keys=True) not in enum_keys:
             continue
+        ctx.count("fault/configurations with fault enumeration")
         for i in range(len(r["points"])):
             cases.append(dict(c, arm=i))
     cases = ctx.order(cases)
     res = core.pmap(MOD, "run_fault", cases)
-    sigs = set()
     inwin = 0
     for c, r in zip(cases, res):
         ctx.add_violations(r["viols"])
         ctx.count("fault/window " + r["window"])
         if r["window"] == "in":
             inwin += 1
-            sigs.add((c["nCycles"], c["burnSteps"], c["tight"], r["sig"]))
+            sigs.add((cfg_text(norm_cfg(c)), r["sig"]))
             ctx.count("fault/snapshots loaded", r["nsnap"])
-    for c, r in zip(cfgs, free):
-        sigs.add((c["nCycles"], c["burnSteps"], c["tight"], r["sig"]))
-    ctx.log("part B: %d configurations, %d fault runs (%d inside the window), %d distinct outcomes" % (len(cfgs), len(cases), inwin, len(sigs)))
+    ctx.log("part B: %d fault-free configurations, %d with fault enumeration, %d fault runs (%d inside the window), %d distinct outcomes" % (len(cfgs), len(fam_enum), len(cases), inwin, len(sigs)))
     # ---- Part R: restart merges on the multi-step configurations
-    rcfgs = [dict(c, part="R", seed=ctx.seed) for c in fault_configs(b) if (c["nCycles"] - 1) * (c["burnSteps"] + 1) + c["burnSteps"] >= 2 and not c["tight"]]
+    rcfgs = [dict(_cfg(nC, bs, False), part="R", seed=ctx.seed) for nC, bs in b["shapes_enum"] + [s_ for s_ in b["shapes_free"] + b["shapes_free_base"] if s_ == (2, 2) and s_ not in b["shapes_enum"]] if (nC - 1) * (bs + 1) + bs >= 2]
     rres = core.pmap(MOD, "run_restart", rcfgs)
     for r in rres:
         ctx.add_violations(r["viols"])
@@ -1293,10 +1421,12 @@ def run(ctx):
         {
             "evaluations": len(cfgs) + len(cases) + nsplit + nrestart + len(citems),
             "distinct_nontrivial": len(sigs) + sum(r["shifted"] for r in sres),
-            "rule": "fault enumeration: one real operator run per (configuration, interaction point) with the fault raised exactly there, plus the fault-free runs; "
+            "rule": "fault enumeration: one fault-free real operator run per member of the configuration family (every node + EOL present exactly once, flag, every snapshot loaded and compared), and for the enumerated members one run per interaction point with the fault raised exactly there; "
             "non-trivial+distinct = distinct (configuration, set of snapshots left in the file, completion flag) among points inside the window. "
             "split enumeration: every keep-subset of every set of <= %d snapshot times; non-trivial = the kept steps need renumbering (earliest kept cycle > 0)." % b["split_max"],
-            "fault_configurations": len(cfgs),
+            "fault_shapes_free": [list(x) for x in b["shapes_free"] + b["shapes_free_base"]],
+            "fault_free_configurations": len(cfgs),
+            "fault_configurations": len(fam_enum),
             "fault_runs": len(cases),
             "fault_points_inside_window": inwin,
             "fault_distinct_outcomes": len(sigs),
@@ -1314,7 +1444,8 @@ def run(ctx):
         "array parameters have the same shape on all blocks (history of jagged columns is documented as unsupported); 'location' histories are asked for assemblies only",
         "when a labelled and an unlabelled snapshot share (cycle,node), a history without explicit steps may return either value for that step",
         "splitDatabase renumbers cycles (documented in code): 'unchanged' is checked modulo a shift applied consistently to group name, Reactor/cycle and the group's cycle attribute; labelled snapshots cannot be requested and are not kept",
-        "Part B: bare Operator, stack [recorder, DatabaseInterface, recorder], nCycles x burnSteps x tightCoupling as counted; one RuntimeError per run, raised inside a recorder hook; faults before the database is opened (first recorder at BOL) and after it is finalised (last recorder at EOL) are outside the property's window and only counted",
+        "Part B: bare Operator, stack [recorder, DatabaseInterface, recorder]. Fault-free family: every (nCycles, burnSteps) shape listed in coverage x {no tight coupling, tight coupling x cyclesSkipTightCouplingInteraction in {[], [0], [1], all} x coupled iterations in {default cap, cap 0, cap 1, cap 2 reached with a never-converging real TightCoupler}} x syncDbAfterWrite on the two base members - i.e. every settings dimension found to change which code path writes a node or finalises the file. Fault enumeration (one RuntimeError per run, raised inside a recorder hook at every interaction point): the base members of the smaller shapes plus one member per deviation (quick) / every member of the family on the smaller shapes (thorough). Faults before the database is opened (first recorder at BOL) and after it is finalised (last recorder at EOL) are outside the property's window and only counted",
+        "not covered: debugDB (a bare operator aborts at the first BOL debug write, before the database exists), forceDbParams (changes which columns are stored, not the write path), deferred interfaces and the db switch (they decide whether the database interface takes part at all), snapshot/restart operators other than prepRestartRun",
         "fast path redirected below the per-run scratch directory (context.APP_DATA / context._FAST_PATH), distinct from the working directory, so the move on close is exercised",
     ]
 
